@@ -309,7 +309,7 @@ Proof.
 Qed.
 
 Lemma add_other : forall ttl k tag s,
-  now (add_template ttl k tag s) = now s + tick s /\ inflight (add_template ttl k tag s) = inflight s /\
+  now (add_template ttl k tag s) = now s + tick s + tick s /\ inflight (add_template ttl k tag s) = inflight s /\
   next_cb (add_template ttl k tag s) = next_cb s /\ last_ok (add_template ttl k tag s) = last_ok s /\
   next_timer (add_template ttl k tag s) = match get_tpl k s with Some _ => next_timer s | None => S (next_timer s) end.
 Proof.
@@ -481,7 +481,7 @@ Section Preservation.
     { intro k'. apply add_get_tpl. }
     pose proof (add_get_timer ttl k tag s) as GM. fold s1 in GM.
     set (s2 := with_last_ok s1 (upd key_eqb k (now s) (last_ok s1))).
-    assert (N2 : now s2 = now s + tick s) by exact Hnow.
+    assert (N2 : now s2 = now s + tick s + tick s) by exact Hnow.
     assert (F2 : inflight s2 = inflight s) by exact Hfl.
     assert (K2 : tick s2 = tick s) by exact Htk.
     assert (O2 : last_ok s2 = upd key_eqb k (now s) (last_ok s)) by (simpl; rewrite Hok; reflexivity).
